@@ -26,6 +26,10 @@ pub struct Caller {
     /// in-flight counter)
     #[serde(default)]
     pub via: u8,
+    /// after the handle has answered Ready, do nothing for this long, then ask it again before
+    /// calling (0 = call at once)
+    #[serde(default)]
+    pub recheck_after_ms: u64,
 }
 
 #[derive(Clone, Debug, Serialize, Deserialize, PartialEq)]
@@ -59,6 +63,7 @@ pub fn gen(rng: &mut Rng) -> Scn {
             cancel: if faulty { gen_cancel(rng, start_ms, 25) } else { CancelSpec::Never },
             drop_unpolled: faulty && rng.chance(1, 10),
             via: if two { rng.below(2) as u8 } else { 0 },
+            recheck_after_ms: if rng.chance(1, 6) { *rng.pick(&[1u64, 5, 10, 20]) } else { 0 },
         });
     }
     Scn {
@@ -92,7 +97,7 @@ pub fn valid(s: &Scn) -> bool {
         && s.beta <= 10
         && !s.callers.is_empty()
         && s.callers.len() <= 12
-        && s.callers.iter().all(|c| c.start_ms <= 300 && c.beh.lat_ms <= 200 && c.beh.yields <= 4 && c.via <= 1)
+        && s.callers.iter().all(|c| c.start_ms <= 300 && c.beh.lat_ms <= 200 && c.beh.yields <= 4 && c.via <= 1 && c.recheck_after_ms <= 50)
         && s.knobs.jumps.is_empty()
 }
 
@@ -139,18 +144,28 @@ pub fn run(s: &Scn, ctx: &mut RunCtx) -> RunOutput {
             let via = if i < n { scn.callers[i].via } else { 0 };
             let svc = if via == 0 { base.clone() } else { base_b.clone() };
             let drop_unpolled = i < n && scn.callers[i].drop_unpolled;
+            let recheck = if i < n { scn.callers[i].recheck_after_ms } else { 0 };
             let make: Box<dyn FnOnce() -> LocalFut> = Box::new(move || {
                 Box::pin(async move {
                     let mut svc = svc;
                     // readiness polled by hand so that every answer can be compared with capacity
-                    let r = std::future::poll_fn(|cx| {
-                        let true_inflight = world::with(|w| w.in_flight[via as usize]);
-                        let limit = svc.limit() as i64;
-                        let r = svc.poll_ready(cx);
-                        world::note(if r.is_pending() { "ready_pending" } else { "ready_ok" }, true_inflight, limit);
-                        r
-                    })
-                    .await;
+                    let mut r = Ok(());
+                    for round in 0..2 {
+                        r = std::future::poll_fn(|cx| {
+                            let true_inflight = world::with(|w| w.in_flight[via as usize]);
+                            let limit = svc.limit() as i64;
+                            let r = svc.poll_ready(cx);
+                            world::note(if r.is_pending() { "ready_pending" } else { "ready_ok" }, true_inflight, limit);
+                            r
+                        })
+                        .await;
+                        if round == 0 && recheck > 0 && r.is_ok() {
+                            world::fault("ready_then_wait_then_recheck");
+                            tokio::time::sleep(Duration::from_millis(recheck)).await;
+                        } else {
+                            break;
+                        }
+                    }
                     let r: Result<_, AdaptiveError<SimErr>> = match r {
                         Err(e) => Err(e),
                         Ok(()) => {
